@@ -579,11 +579,13 @@ func (c *Conn) run() (err error) {
 
 	c.timer = time.NewTimer(monotime.Until(c.idleTimeoutStartTime().Add(c.config.HandshakeIdleTimeout)))
 
+	// If the handshake can't even be started, close the connection the regular way (without sending
+	// anything): the run loop below exits right away, and handleCloseError removes the connection from
+	// the packet handler map, closes the streams and the datagram queue, and stops the timer.
 	if err := c.cryptoStreamHandler.StartHandshake(c.ctx); err != nil {
-		return err
-	}
-	if err := c.handleHandshakeEvents(monotime.Now()); err != nil {
-		return err
+		c.destroyImpl(err)
+	} else if err := c.handleHandshakeEvents(monotime.Now()); err != nil {
+		c.destroyImpl(err)
 	}
 	go func() {
 		if err := c.sendQueue.Run(); err != nil {
